@@ -797,6 +797,9 @@ func (s *g8SepSummaries) of(fn *ssa.Function) [2]bool {
 
 // sepTest: `v == truth` says that a separator test on param failed (no separator).
 func (s *g8SepSummaries) sepTest(v ssa.Value, truth bool, param *ssa.Parameter) bool {
+	if j5SepAbsent(v, truth, func(x ssa.Value) bool { return x == ssa.Value(param) }, s.needBackslash) {
+		return true // a search with a character predicate, an index compared with -1 (ip_j5.go)
+	}
 	call, ok := v.(*ssa.Call)
 	if !ok || len(call.Call.Args) == 0 || call.Call.Args[0] != ssa.Value(param) {
 		return false
